@@ -174,7 +174,10 @@ def Case(name, depth, iterative, rng, cid):
            'iterative_forced' if iterative else 'iterative_auto',
            'workflow' if workflow else 'single_statement']
   return {'id': cid, 'prog': prog, 'query': [p['name'] for p in preds],
-          'workflow': workflow, 'stages': True,
+          'workflow': workflow,
+          # tree-level validation of the unfolded rules is affordable for
+          # shallow depths only (the unfolding is depth x group size predicates)
+          'stages': (not workflow) and depth is not None and depth <= 4,
           'meta': {'features': feats,
                    'sig': {'family': name, 'depth': depth,
                            'iterative': iterative}}}
